@@ -117,6 +117,71 @@ theorem C15_attach_defect_witness :
     ([Att.all].flatMap (expandAtt [(1, [1, 2])])) = [1, 2] ∧
     normAtt true [(1, [1, 2])] [1, 1] = [.pulse 1, .pulse 1] := by decide
 
+/-- the written forms are never empty for a load that has pulses -/
+theorem normAtt_ne_nil (objs : List (Nat × List Nat)) (attached : List Nat) (h : attached ≠ []) :
+    normAtt true objs attached ≠ [] := by
+  unfold normAtt
+  set full := objs.filter (objAll true attached) with hfull
+  simp only
+  by_cases hf : full = []
+  · -- nothing is written as a whole object: every attached pulse is written by number
+    have : (attached.filter fun p => !(full.any fun o => o.2.contains p)) = attached := by
+      rw [hf]; simp
+    rw [this, hf]
+    simp [h]
+  · split
+    · simp
+    · intro hnil
+      have := List.append_eq_nil_iff.mp hnil
+      exact hf (List.map_eq_nil_iff.mp this.1)
+
+/-- **every written load is used** (repaired writer): the attachment list written for a load is non-empty
+whenever the load has a pulse or some geo object owns no pulse (the only way `main` builds a load without
+pulses is an attachment to all pulses of such an object) — so the reader's "Not all loads were used" cannot
+reject the written file -/
+theorem C15_attach_used (objs : List (Nat × List Nat)) (attached : List Nat)
+    (h : attached ≠ [] ∨ ∃ o ∈ objs, o.2 = []) : writeAtt true objs attached ≠ [] := by
+  unfold writeAtt
+  by_cases ha : attached = []
+  · subst ha
+    simp only [List.isEmpty_nil, if_true]
+    rcases h with h | ⟨o, ho, he⟩
+    · exact absurd rfl h
+    · have : (objs.find? (·.2.isEmpty)).isSome := by
+        rw [List.find?_isSome]; exact ⟨o, ho, by simp [he]⟩
+      obtain ⟨w, hw⟩ := Option.isSome_iff_exists.mp this
+      rw [hw]; simp
+  · have : attached.isEmpty = false := by simpa using ha
+    rw [this]; simp only [Bool.false_eq_true, if_false]
+    exact normAtt_ne_nil objs attached ha
+
+/-- **attachments round trip, loads without pulses included** -/
+theorem C15_attach_all (objs : List (Nat × List Nat)) (attached : List Nat)
+    (htags : (objs.map (·.1)).Nodup) (hdisj : (objs.flatMap (·.2)).Nodup) :
+    ((writeAtt true objs attached).flatMap (expandAtt objs)).Perm attached := by
+  unfold writeAtt
+  by_cases ha : attached = []
+  · subst ha
+    simp only [List.isEmpty_nil, if_true]
+    cases hf : objs.find? (·.2.isEmpty) with
+    | none => simp
+    | some o =>
+      have ho : o ∈ objs := List.mem_of_find?_eq_some hf
+      have he : o.2 = [] := by simpa using List.find?_some hf
+      simp only [List.flatMap_cons, List.flatMap_nil, List.append_nil]
+      rw [expand_allObj objs htags o ho, he]
+  · have : attached.isEmpty = false := by simpa using ha
+    rw [this]; simp only [Bool.false_eq_true, if_false]
+    exact C15_attach objs attached htags hdisj
+
+/-- the former writer wrote no attachment for a load without pulses: `--load=50 --attach-load=1,all,2` with
+a pulse-less object 2 was written as `--load=50` alone, which the reader rejects -/
+theorem C15_unused_defect_witness :
+    writeAtt false [(1, [1, 2]), (2, [])] [] = [] ∧
+    readLoads (writeLoads [⟨.imp, 50, writeAtt false [(1, [1, 2]), (2, [])] []⟩]) = .error "not-all-loads-were-used" ∧
+    readLoads (writeLoads [⟨.imp, 50, writeAtt true [(1, [1, 2]), (2, [])] []⟩]) = .ok [⟨.imp, 50, [.allObj 2]⟩] := by
+  decide
+
 /-! ### distributed loads -/
 
 theorem writeDist_skip (seen : List Bool) (k : DKind) (par : Nat) (tags : List Nat) (rest : List DLoad)
